@@ -38,18 +38,24 @@ def isOkOrEOF (r : MRes) : Bool :=
 
 namespace UFile
 
+def bytesLen : MRes → Nat
+  | .file (.bytes bs _) => bs.length
+  | _ => 0
+
+def withErr (r : MRes) (e : Option FErr) : MRes :=
+  match r with
+  | .file (.bytes bs _) => .file (.bytes bs e)
+  | x => x
+
 /-- `UnionFile.Read` -/
 def read (s : Layers) (u : UFile) (len : Nat) : Layers × MRes :=
-  let (l', r) := s.l.hRead u.li len
-  if isOkOrEOF r then
-    let n := match r with | .file (.bytes bs _) => bs.length | _ => 0
-    let (b', sr) := s.b.hSeek u.bi n 1
-    match sr with
-    | .file (.pos _) => ({ b := b', l := l' }, r)
-    | other => ({ b := b', l := l' }, match r with
-        | .file (.bytes bs _) => .file (.bytes bs (fErrOf other))
-        | x => x)
-  else ({ s with l := l' }, r)
+  let rl := s.l.hRead u.li len
+  if isOkOrEOF rl.2 then
+    let rb := s.b.hSeek u.bi (bytesLen rl.2) 1
+    match rb.2 with
+    | .file (.pos _) => ({ b := rb.1, l := rl.1 }, rl.2)
+    | other => ({ b := rb.1, l := rl.1 }, withErr rl.2 (fErrOf other))
+  else ({ s with l := rl.1 }, rl.2)
 
 /-- `UnionFile.ReadAt` (repaired: positional, the base handle is left alone) -/
 def readAt (s : Layers) (u : UFile) (len : Nat) (off : Int) : Layers × MRes :=
@@ -154,14 +160,14 @@ def fsExists (m : MemFs) (k : Key) : Bool := (m.lookup k).isSome
     MkdirAll the parent in the layer if missing, Create, io.Copy, size check, Close, Chtimes.
     `dirStr` is `filepath.Dir(name)` of the *given* name string. Fault-free version
     (the fault-injected one is in Model/CopyFault.lean). -/
-def copyFile (base layer : MemFs) (name : Str) (bo : ObjId) : MemFs × Option FsErr :=
+def copyFileFrom (base layer : MemFs) (name : Str) (bo : ObjId) (startPos : Nat) : MemFs × Option FsErr :=
   let dk := keyOfStr (Path.dir name)
   let layer := if fsExists layer dk then layer else (layer.mkdirAll dk 0o777).1
   let k := keyOfStr name
   let (layer, lf) := layer.create k
   let src := base.obj bo
-  -- io.Copy: a directory handle yields no bytes
-  let copied : Bytes := if src.dir then [] else src.data
+  -- io.Copy reads from the handle's position on; a directory handle yields no bytes
+  let copied : Bytes := if src.dir then [] else src.data.drop startPos
   let layer := layer.setObj lf ((layer.obj lf).withIO copied (copied ≠ []) layer.now)
   let size := if src.dir then 42 else src.data.length
   if size ≠ copied.length then
@@ -170,6 +176,9 @@ def copyFile (base layer : MemFs) (name : Str) (bo : ObjId) : MemFs × Option Fs
     -- lfh.Close() stamps now, then Chtimes restores the base's mtime
     let layer := layer.setObj lf { layer.obj lf with mtime := layer.now }
     ((layer.chtimes k src.mtime).1, none)
+
+def copyFile (base layer : MemFs) (name : Str) (bo : ObjId) : MemFs × Option FsErr :=
+  copyFileFrom base layer name bo 0
 
 /-- `copyToLayer(base, layer, name)` -/
 def copyToLayer (base layer : MemFs) (name : Str) : MemFs × Option FsErr :=
